@@ -7,7 +7,7 @@ import os
 import vlib
 from vlib import Verdict, log, tlc, workdir
 
-INVS = "NoStuck BusyHasUnbusy AccIsSum QueueWithinLimit NoDuplicates NoPastEvents PanickedInertUnlessPending"
+INVS = "NoStuck BusyHasUnbusy AccIsSum QueueWithinLimit NoDuplicates NoPastEvents PanickedInert"
 
 # Named constant tables of MC_Net.tla and their concrete counterparts for the harness.
 TX = {
@@ -354,20 +354,15 @@ def c13(tier):
     import c_async
     c_async.family(v, wd, "C13", "task_panic", 2, "ProgsPanic", 14, join_modes=True,
                    what="a task panics at any step while the other task sends / receives / sleeps; join, try_join, handle dropped")
-    # the design-level statement: a module that panicked is never active again.  PanickedInertUnlessPending (part of every run
-    # above) holds; the full statement fails exactly through a restart the module had requested itself (F-C13-1), and the
-    # scenarios in which the interpreter predicts that were confirmed on the real simulation by the replays above
-    r = tlc("MC_Net", f"CONSTANTS {pr.constants()}\nSPECIFICATION Spec\nINVARIANTS PanickedInert\nCHECK_DEADLOCK FALSE\n", wd)
-    v.add_tlc("Net: PanickedInert [panic_restart]", r, pr.constants().replace("\n", " "))
+    # the design-level statement: a module that panicked is never active again (PanickedInert is part of every TLC run above);
+    # a scenario in which the real simulation lets a panicked module run again is a violation (this was finding F-C13-1,
+    # repaired in /repo)
     again = [g for g in v.cov.get("gen_runs", []) if g.get("classes", {}).get("panicked_module_ran_again")]
-    if r.violation or again:
+    if again:
         n_again = sum(int(g["classes"]["panicked_module_ran_again"]) for g in again)
-        sample = again[0]["classes"].get("panicked_module_ran_again_sample") if again else None
-        v.add_violation(f"a module that panicked is re-activated by a restart it had requested before (or in the start-up stage after) its panic and "
-                        f"handles events again: TLC counterexample to PanickedInert={'yes' if r.violation else 'no'}, confirmed on the real "
-                        f"simulation in {n_again} generated scenarios",
-                        {"tlc_counterexample": r.tail[-3000:] if r.violation else None, "real_run": sample},
-                        {"suite": "net", "panicked_module_revived": True, "by_own_pending_restart": True})
+        sample = again[0]["classes"].get("panicked_module_ran_again_sample")
+        v.add_violation(f"a module that panicked handles events again in {n_again} generated scenarios",
+                        {"real_run": sample}, {"suite": "net", "panicked_module_revived": True})
     for g in v.cov.get("gen_runs", []):
         g.get("classes", {}).pop("panicked_module_ran_again_sample", None)
     v.cov["rule"] = ("panic placements chosen by TLC: any module x at_sim_start / handle_message x any occurrence, several panicking modules, "
